@@ -62,10 +62,48 @@ def run(chk: Check, drv: Driver):
                     chk.count("problem_" + kind)
                     chk.violation(f"{kind} kernel: {what}", pr.case(sizes, ins, capacity=cap, kernel=kind))
     chk.count("cases", total)
+    if not quick:
+        large_allocation(chk)
     chk.assumptions += [
         "the kernels' text is executed by the IR machine, not by hardware; gcc/LLVM code generation is C06's concern",
         "allocation sizes up to 2^20 elements; the >= 2^29-element LLVM size arithmetic (F9) is outside machine replay",
     ]
+
+
+LARGE = r"""
+import sys
+from tensora import Tensor, evaluate
+from tensora.compile import evaluate_cffi, tensor_cdefs
+n = 2**29
+b = Tensor.from_dok({(5,): 2.0}, dimensions=(n,), format='s')
+r = (evaluate if sys.argv[1] == 'llvm' else evaluate_cffi)('a(i) = b(i)', 'd', b=b)
+v = tensor_cdefs.cast("double*", r.cffi_tensor.vals)
+assert r.dimensions == (n,) and v[5] == 2.0 and v[0] == 0.0 and v[n - 1] == 0.0, (r.dimensions, v[5])
+print("ok")
+"""
+
+
+def large_allocation(chk: Check):
+    """finding F9 (fixed): element counts that fit int32 but whose byte size needs more than 32 bits"""
+    import subprocess
+    import sys
+    import tempfile
+
+    with tempfile.TemporaryDirectory(prefix="verif_c05_") as td:
+        path = td + "/large.py"
+        open(path, "w").write(LARGE)
+        for backend in ("llvm", "cffi"):
+            case = {"assignment": "a(i) = b(i)", "formats": {"a": "d", "b": "s"}, "sizes": {"i": 2**29}, "backend": backend}
+            chk.case(("large", backend), sample=case)
+            try:
+                r = subprocess.run([sys.executable, path, backend], capture_output=True, text=True, timeout=1500)
+            except subprocess.TimeoutExpired:
+                chk.count("large_allocation_timeout")
+                continue
+            chk.count("large_allocation_runs")
+            if r.returncode != 0:
+                chk.violation(f"kernel with a 2**29-element dense output failed on the {backend} back end "
+                              f"(exit {r.returncode}; a negative code is a signal)", case, got=(r.stdout + r.stderr)[-300:])
 
 
 def replay(chk: Check, drv: Driver, path: str):
